@@ -28,7 +28,22 @@ fn gen(rng: &mut Rng) -> (String, bool) {
     // structs: S0 plain; S1<P0> where P0: Tk with a field; S2<P0> wrapping S1<P0> (needs the bound)
     s.push_str("struct S0 {}\n");
     let k = rng.usize_below(nt);
-    s.push_str(&format!("struct S1<P0> where P0: T{} {{ f0: P0 }}\n", k));
+    // S1 may mention ITSELF in further fields, at its own parameter or at other arguments (a closed
+    // type that may or may not satisfy the bound, a nested instance): each mention is an input type
+    // of the declaration and must be well-formed under the declaration's where-clauses
+    let mut s1_fields: Vec<String> = vec!["P0".to_string()];
+    if rng.chance(1, 2) {
+        let pool = ["S1<P0>", "S1<S0>", "S1<u32>", "S1<S1<P0>>", "S1<S1<S0>>", "S0"];
+        for _ in 0..1 + rng.usize_below(2) {
+            s1_fields.push(rng.pick(&pool).to_string());
+        }
+        for i in (1..s1_fields.len()).rev() {
+            let j = rng.usize_below(i + 1);
+            s1_fields.swap(i, j);
+        }
+    }
+    let s1_body: Vec<String> = s1_fields.iter().enumerate().map(|(i, f)| format!("f{}: {}", i, f)).collect();
+    s.push_str(&format!("struct S1<P0> where P0: T{} {{ {} }}\n", k, s1_body.join(", ")));
     if rng.chance(2, 3) {
         // a struct one of whose fields mentions S1<P0>: well-formed only with the bound.  Other
         // fields (a bare parameter, a closed type) come before or after it.
@@ -38,6 +53,10 @@ fn gen(rng: &mut Rng) -> (String, bool) {
         }
         if rng.chance(1, 3) {
             fields.push("S0");
+        }
+        if rng.chance(1, 3) {
+            // the struct mentions itself at other arguments
+            fields.push(*rng.pick(&["S2<S0>", "S2<u32>", "S1<S2<P0>>", "S2<S1<P0>>"]));
         }
         for i in (1..fields.len()).rev() {
             let j = rng.usize_below(i + 1);
